@@ -486,14 +486,15 @@ impl BufferTransformT for ASCIIHexDecode<'_> {
         let loc = &buf.get_location();
         let mut stage = Vec::new();
         let mut saw_eod = false;
-        for (i, b) in buf.buf().iter().enumerate() {
+        for b in buf.buf().iter() {
             match b {
                 // ignore PDF whitespace
                 0x00 | 0x09 | 0x0A | 0x0C | 0x0D | 0x20 => continue,
-                // handle EOD
+                // handle EOD: an odd number of digits means that the
+                // last digit is followed by an implied 0.
                 0x3E => {
                     saw_eod = true;
-                    if i % 2 == 1 {
+                    if stage.len() % 2 == 1 {
                         stage.push(0x30);
                     }
                     break
